@@ -71,4 +71,13 @@ theorem pools_shape :
   decide
 #print axioms pools_shape
 
+/-- the per-project second pass: the step that writes state shared by ALL projects (the member tables of the first-pass
+    symbols of globals: handleOtherFileInsertSub) is not among the calls of the worker, it is what the coordinator does
+    after its receive loop — when every worker has reported (repair 3f5ac55: it used to run inside the workers and two of
+    them writing one Go map killed the process) -/
+theorem shared_member_tables_written_after_the_workers :
+    "handleOtherFileInsertSub" ∉ Gen.secondPassWorkerCalls ∧ Gen.secondPassAfterLoopCalls = ["handleOtherFileInsertSub"] := by
+  decide
+#print axioms shared_member_tables_written_after_the_workers
+
 end LuaHelper.Pools
